@@ -114,3 +114,49 @@ def decode_cases(rep, tier, r, pid):
 
 def c03_cases(rep, tier, r):
   return decode_cases(rep, tier, r, 'C03')
+
+
+def default_cases(rep, tier, r):
+  """suggest_default.get_default_parameters on one parameter vs Model/Default.v default_checked (formulas from Gen/SuggestDefault.v)."""
+  from vizier import pyvizier as vz
+  from vizier._src.pythia import suggest_default
+  n = 120 if tier == 'quick' else 2000
+  cases, objs = [], []
+  for i in range(n):
+    pc0 = gen_pc(r, vz)
+    ty = pc0.type.name
+    mode = ['none', 'inside', 'outside', 'none'][i % 4]
+    d = None
+    if mode == 'inside':
+      d = {'DOUBLE': lambda: r.choice([pc0.bounds[0], pc0.bounds[1], (pc0.bounds[0] + pc0.bounds[1]) / 2]),
+           'INTEGER': lambda: r.randrange(pc0.bounds[0], pc0.bounds[1] + 1),
+           'DISCRETE': lambda: r.choice(list(pc0.feasible_values)), 'CATEGORICAL': lambda: r.choice(list(pc0.feasible_values))}[ty]()
+    elif mode == 'outside':
+      d = {'DOUBLE': lambda: r.choice([pc0.bounds[1] + 0.5, pc0.bounds[0] - 2.0, pc0.bounds[1] + 1024.0]),
+           'INTEGER': lambda: r.choice([pc0.bounds[1] + 1, pc0.bounds[0] - 1, pc0.bounds[1] + 40]),
+           'DISCRETE': lambda: r.choice([0.75, -3.0, 100.0]), 'CATEGORICAL': lambda: r.choice(['zz', '', 'A'])}[ty]()
+    kw = dict(bounds=pc0.bounds) if ty in ('DOUBLE', 'INTEGER') else dict(feasible_values=list(pc0.feasible_values))
+    try:
+      pc = vz.ParameterConfig.factory('p', default_value=d, **kw)
+      space = vz.SearchSpace()
+      space.add(pc)
+      out = suggest_default.get_default_parameters(space)
+      val = out['p'].value
+      res = '(Some %s)' % g_rv(val)
+      obs = val
+    except (ValueError, TypeError) as e:
+      res, obs = 'None', type(e).__name__
+    cases.append('(%s, %s, %s)' % (g_pcfg(pc0), 'None' if d is None else '(Some %s)' % g_rv(d), res))
+    objs.append((repr(pc0)[:200], d, obs))
+    rep.case({'default_seed': repr(pc0)[:100], 'declared_default': repr(d), 'result': repr(obs)}, mode != 'none')
+    rep.count('default_' + mode + '_' + ('refused' if res == 'None' else 'given'))
+  ck = ('Definition rv_num_same (a b : rv) := match num_of a, num_of b with Some x, Some y => xq_eqb x y | None, None => '
+        'match a, b with RStr s, RStr t => str_eqb s t | _, _ => false end | _, _ => false end.\n'
+        'Definition ck (c : pcfg * option rv * option rv) := let \'(p, d, r) := c in match default_checked p d, r with '
+        '| Ok v, Some w => rv_num_same v w | Err _, None => true | _, _ => false end.\n')
+  bad = C.run_cases('C03', 'dflt', 'From VZ Require Import Base.Prelude Model.Space Model.Conv Model.Default.\n' + ck, cases, 'ck', shard=300)
+  rep.disagreements += len(bad)
+  msg = None
+  for i in bad[:3]:
+    msg = (msg or '') + ' correspondence get_default_parameters vs default_checked on %r;' % (objs[i],)
+  return msg, False
